@@ -8,6 +8,7 @@ import (
 	"strings"
 	"sync"
 
+	"github.com/zitadel/saml/pkg/provider"
 	"github.com/zitadel/saml/pkg/provider/key"
 	"github.com/zitadel/saml/pkg/provider/models"
 	"github.com/zitadel/saml/pkg/provider/serviceprovider"
@@ -92,8 +93,19 @@ var ErrInjected = errors.New("injected storage fault")
 // ThreadID reports the scheduler thread making a storage call (installed by the sched engine).
 var ThreadID = func() int { return -1 }
 
+// Tenant holds what a multi-tenant storage answers differently for one issuer (the issuer the interceptor put into the
+// request context): nil / missing entries fall back to the store-wide tables.
+type Tenant struct {
+	RespKey *key.CertificateAndKey
+	Logins  map[string]*User                            // login name -> user
+	Users   map[string]*User                            // user id -> user
+	SPs     map[string]*serviceprovider.ServiceProvider // entityID -> registration
+}
+
 // Store is the strict in-memory implementation of provider.Storage.
 type Store struct {
+	// Tenants: issuer (provider.IssuerFromContext) -> tenant-specific answers. nil: single-tenant storage.
+	Tenants map[string]*Tenant
 	mu       sync.Mutex
 	sps      map[string]*serviceprovider.ServiceProvider // entityID -> SP
 	apps     map[string]string                           // appID -> entityID
@@ -106,6 +118,7 @@ type Store struct {
 	calls    []Call
 	occ      map[string]int
 	faults   map[string]string // "Op#occurrence" (1-based) -> kind
+	persist  map[string]string // Op -> kind: every call of Op from now on fails this way (an outage, not a one-off failure)
 	fired    []string
 	nextID   int
 	// ErrText is the text of injected errors (C18 feeds metacharacters through it).
@@ -129,6 +142,35 @@ func NewStore() *Store {
 // ---- harness-side (not part of provider.Storage) ----------------------------------------------
 
 func (s *Store) LoginURL(id string) string { return s.LoginURLBase + id }
+
+// tenant returns the tenant the request context belongs to (nil: none configured for its issuer).
+func (s *Store) tenant(ctx context.Context) *Tenant {
+	if s.Tenants == nil || ctx == nil {
+		return nil
+	}
+	return s.Tenants[provider.IssuerFromContext(ctx)]
+}
+
+// RegisterTenantSP parses metadata with the real NewServiceProvider and registers it for one tenant only.
+func (s *Store) RegisterTenantSP(issuer, appID string, metadata []byte) error {
+	sp, err := serviceprovider.NewServiceProvider(appID, &serviceprovider.Config{Metadata: metadata}, func(id string) string { return s.LoginURLBase + id })
+	if err != nil {
+		return err
+	}
+	if s.Tenants == nil {
+		s.Tenants = map[string]*Tenant{}
+	}
+	t := s.Tenants[issuer]
+	if t == nil {
+		t = &Tenant{}
+		s.Tenants[issuer] = t
+	}
+	if t.SPs == nil {
+		t.SPs = map[string]*serviceprovider.ServiceProvider{}
+	}
+	t.SPs[string(sp.GetEntityID())] = sp
+	return nil
+}
 
 // RegisterSP parses metadata with the real serviceprovider.NewServiceProvider and registers it
 // under its entityID and appID.
@@ -243,6 +285,16 @@ func (s *Store) FaultNext(op string, nth int, kind string) {
 }
 
 // Occ returns how many times op was called so far.
+// FaultFromNowOn makes every later call of op fail with kind (an outage that lasts).
+func (s *Store) FaultFromNowOn(op, kind string) {
+	s.mu.Lock()
+	if s.persist == nil {
+		s.persist = map[string]string{}
+	}
+	s.persist[op] = kind
+	s.mu.Unlock()
+}
+
 func (s *Store) Occ(op string) int {
 	s.mu.Lock()
 	defer s.mu.Unlock()
@@ -301,6 +353,9 @@ func (s *Store) enter(op string, args ...string) (idx int, fault string) {
 	s.occ[op]++
 	k := fmt.Sprintf("%s#%d", op, s.occ[op])
 	fault = s.faults[k]
+	if fault == "" {
+		fault = s.persist[op]
+	}
 	if fault != "" {
 		s.fired = append(s.fired, k+"="+fault)
 	}
@@ -385,13 +440,23 @@ func (s *Store) GetMetadataSigningKey(context.Context) (*key.CertificateAndKey, 
 	return s.keyAnswer(idx, f, s.MetaKey)
 }
 
-func (s *Store) GetResponseSigningKey(context.Context) (*key.CertificateAndKey, error) {
+func (s *Store) GetResponseSigningKey(ctx context.Context) (*key.CertificateAndKey, error) {
 	idx, f := s.enter("GetResponseSigningKey")
-	return s.keyAnswer(idx, f, s.RespKey)
+	base := s.RespKey
+	if t := s.tenant(ctx); t != nil && t.RespKey != nil {
+		base = t.RespKey
+	}
+	return s.keyAnswer(idx, f, base)
 }
 
-func (s *Store) GetEntityByID(_ context.Context, entityID string) (*serviceprovider.ServiceProvider, error) {
+func (s *Store) GetEntityByID(ctx context.Context, entityID string) (*serviceprovider.ServiceProvider, error) {
 	idx, f := s.enter("GetEntityByID", entityID)
+	if t := s.tenant(ctx); t != nil && t.SPs != nil && f == "" {
+		if sp, ok := t.SPs[entityID]; ok {
+			s.result(idx, sp.ID, nil)
+			return sp, nil
+		}
+	}
 	if f == FaultErrWithValue {
 		err := s.faultErr(f)
 		s.result(idx, "", err)
@@ -539,7 +604,7 @@ func (s *Store) fill(u *User, set models.AttributeSetter) {
 	}
 }
 
-func (s *Store) SetUserinfoWithUserID(_ context.Context, appID string, set models.AttributeSetter, userID string, attrs []int) error {
+func (s *Store) SetUserinfoWithUserID(ctx context.Context, appID string, set models.AttributeSetter, userID string, attrs []int) error {
 	idx, f := s.enter("SetUserinfoWithUserID", appID, userID)
 	if f == FaultPartial {
 		s.partial(userID, "", set)
@@ -560,6 +625,11 @@ func (s *Store) SetUserinfoWithUserID(_ context.Context, appID string, set model
 	s.mu.Lock()
 	u, ok := s.users[userID]
 	s.mu.Unlock()
+	if t := s.tenant(ctx); t != nil && t.Users != nil {
+		if tu, tok := t.Users[userID]; tok {
+			u, ok = tu, true
+		}
+	}
 	if !ok {
 		err := fmt.Errorf("user not found")
 		s.result(idx, "", err)
@@ -570,7 +640,7 @@ func (s *Store) SetUserinfoWithUserID(_ context.Context, appID string, set model
 	return nil
 }
 
-func (s *Store) SetUserinfoWithLoginName(_ context.Context, set models.AttributeSetter, loginName string, attrs []int) error {
+func (s *Store) SetUserinfoWithLoginName(ctx context.Context, set models.AttributeSetter, loginName string, attrs []int) error {
 	idx, f := s.enter("SetUserinfoWithLoginName", loginName)
 	if f == FaultPartial {
 		s.partial("", loginName, set)
@@ -591,6 +661,11 @@ func (s *Store) SetUserinfoWithLoginName(_ context.Context, set models.Attribute
 	s.mu.Lock()
 	u, ok := s.logins[loginName]
 	s.mu.Unlock()
+	if t := s.tenant(ctx); t != nil && t.Logins != nil {
+		if tu, tok := t.Logins[loginName]; tok {
+			u, ok = tu, true
+		}
+	}
 	if !ok {
 		err := fmt.Errorf("user not found")
 		s.result(idx, "", err)
